@@ -4,8 +4,9 @@ from pyvc.contract import Schema
 from pyvc.values import Sym, term, zand, zor, znot, zeq, wrap
 
 IdxSort = z3.DeclareSort("Idx")
-idx_space = z3.Function("idx_space", IdxSort, z3.StringSort())
-idx_spin = z3.Function("idx_spin", IdxSort, z3.StringSort())
+# finite string domains are integer coded: idx_space(t) is an index into SPACES
+idx_space = z3.Function("idx_space", IdxSort, z3.IntSort())
+idx_spin = z3.Function("idx_spin", IdxSort, z3.IntSort())
 idx_name = z3.Function("idx_name", IdxSort, z3.StringSort())
 # orbital assigned to an index by the (arbitrary, fixed) assignment sigma:
 # occupied spin orbitals are the negative integers, virtual ones the others.
@@ -15,6 +16,16 @@ orb_spin = z3.Function("orb_spin", IdxSort, z3.IntSort())
 
 SPACES = ["occ", "virt", "general"]
 SPINS = ["", "a", "b"]
+OCC, VIRT, GEN = 0, 1, 2
+NOSPIN, ALPHA, BETA = 0, 1, 2
+
+
+def space_is(t, s):
+    return idx_space(t) == SPACES.index(s)
+
+
+def spin_is(t, s):
+    return idx_spin(t) == SPINS.index(s)
 
 
 def _space_and_spin(ip, s):
@@ -38,8 +49,8 @@ IDX = Schema(
 def valid_index(t):
     """type invariant of an Index (goes into every precondition)."""
     return z3.And(
-        z3.Or(*[idx_space(t) == z3.StringVal(s) for s in SPACES]),
-        z3.Or(*[idx_spin(t) == z3.StringVal(s) for s in SPINS]),
+        idx_space(t) >= 0, idx_space(t) <= 2,
+        idx_spin(t) >= 0, idx_spin(t) <= 2,
         sigma_respects(t),
     )
 
@@ -47,11 +58,11 @@ def valid_index(t):
 def sigma_respects(t):
     """the orbital assigned to t lies in the range of t."""
     return z3.And(
-        z3.Implies(idx_space(t) == z3.StringVal("occ"), orb(t) < 0),
-        z3.Implies(idx_space(t) == z3.StringVal("virt"), orb(t) >= 0),
+        z3.Implies(idx_space(t) == OCC, orb(t) < 0),
+        z3.Implies(idx_space(t) == VIRT, orb(t) >= 0),
         z3.Or(orb_spin(t) == 0, orb_spin(t) == 1),
-        z3.Implies(idx_spin(t) == z3.StringVal("a"), orb_spin(t) == 0),
-        z3.Implies(idx_spin(t) == z3.StringVal("b"), orb_spin(t) == 1),
+        z3.Implies(idx_spin(t) == ALPHA, orb_spin(t) == 0),
+        z3.Implies(idx_spin(t) == BETA, orb_spin(t) == 1),
     )
 
 
@@ -64,7 +75,7 @@ def new_index(vc, prefix="i"):
 def range_subset(i, j):
     """range(i) is a subset of range(j)  (i, j z3 terms of sort Idx)."""
     i, j = term(i), term(j)
-    g, n = z3.StringVal("general"), z3.StringVal("")
+    g, n = GEN, NOSPIN
     return z3.And(z3.Or(idx_space(j) == g, idx_space(i) == idx_space(j)),
                   z3.Or(idx_spin(j) == n, idx_spin(i) == idx_spin(j)))
 
@@ -76,7 +87,7 @@ def range_equal(i, j):
 
 def range_disjoint(i, j):
     i, j = term(i), term(j)
-    g, n = z3.StringVal("general"), z3.StringVal("")
+    g, n = GEN, NOSPIN
     return z3.Or(
         z3.And(idx_space(i) != g, idx_space(j) != g, idx_space(i) != idx_space(j)),
         z3.And(idx_spin(i) != n, idx_spin(j) != n, idx_spin(i) != idx_spin(j)))
